@@ -31,4 +31,24 @@ example : opSame poscDb .add qCm2 qM2 10000 1 = .ok (qCm2, 20000) := by decide +
 example : opSame poscDb .add qM2 qM 1 1 = .error .units := by decide +kernel
 end examples
 
+
+/-! ### witnesses over the shipped table (machine-checked on the tree they were written for; a changed table
+value can change them without touching a property theorem, hence here and not in the theorem module) -/
+
+/-- **the known finding, on the model of the shipped table**: 10 degC + 1 K = −262.15 degC (= 11 K) but
+1 K + 10 degC = 284.15 K: both follow the property's first sentence, they are not the same amount -/
+theorem add_comm_affine_counterexample :
+    opSame poscDb .add qDegC qK 10 1 = .ok (qDegC, R (-26215) 100)
+    ∧ opSame poscDb .add qK qDegC 1 10 = .ok (qK, R 28415 100)
+    ∧ poscDb.convert (S "temperature") (S "degC") (S "K") (R (-26215) 100) = .ok 11 := by
+  refine ⟨by decide +kernel, by decide +kernel, by decide +kernel⟩
+
+/-- **the repaired defect** (fix "unit matching inside a derived quantity scales units that have an offset"):
+inside a derived operand a unit with an offset is scaled, not shifted: (10 degC·m) + (1 m·K) = 11 degC·m
+(it was −262.15 degC·m), and the other order gives 11 m·K -/
+theorem add_derived_affine_scaled :
+    opSame poscDb .add qDegCm qmK 10 1 = .ok (qDegCm, 11)
+    ∧ opSame poscDb .add qmK qDegCm 1 10 = .ok (qmK, 11) := by
+  refine ⟨by decide +kernel, by decide +kernel⟩
+
 end Barril.Alg
